@@ -164,6 +164,7 @@ pub fn walk_jpeg(d: &[u8]) -> Option<Vec<Unit>> {
                     0xC4 => "DHT".into(),
                     0xDA => "SOS".into(),
                     0xFE => "COM".into(),
+                    0xDD => "DRI".into(),
                     0xC0..=0xCF => format!("SOF{}", m - 0xC0),
                     _ => format!("M{m:02X}"),
                 };
